@@ -28,6 +28,8 @@ MCNext ==
           \/ DeleteNode(i, n) /\ hist' = Append(hist, Ev("DeleteNode", i, [n |-> n]))
           \/ TouchDead(i, n) /\ hist' = Append(hist, Ev("TouchDead", i, [n |-> n]))
      \/ AllowInsert /\ \E p \in 0..MaxNodes : InsertHugr(p) /\ hist' = Append(hist, Ev("InsertHugr", 1, [p |-> p]))
+     \/ AllowInsert /\ st[2].meta[0] = "none" /\ st[2].live = {0} /\                       \* metadata on the root of the HUGR that will be inserted
+          \E m \in MetaToks \ {"none"} : SetMeta(2, 0, m) /\ hist' = Append(hist, Ev("SetMeta", 2, [n |-> 0, m |-> m]))
 View == st
 Emit == PrintT(ToJson([hist |-> hist', res |-> res', obs |-> Obs']))
 (* one line per distinct state reached by insert_hugr; SampleK > 1 keeps every K-th of them *)
